@@ -405,14 +405,29 @@ def collect_unit(unit, vacuity=False):
     except Rejected as r:
         contracted = {fe['id'] for fe in r.info.get('fn_entries', []) if fe.get('has_body')}
         lost = sorted({h['fn'] for h in r.info.get('lost_hints', [])} | (set(r.info.get('rejected_in', [])) & contracted))
-        if not lost:
+        plain = sorted(set(r.info.get('rejected_in', [])) - contracted)     # functions without a contract entry that Verus cannot take
+        if not lost and not plain:
             raise
-        res = _collect_unit_once(unit, vacuity, tuple(lost))
-        res['isolated'] = lost
+        res = _collect_unit_once(unit, vacuity, tuple(lost), tuple(plain))
+        res['isolated'] = lost + plain
+        res['isolated_plain'] = plain
         return res
 
 
-def _collect_unit_once(unit, vacuity, isolate):
+def patch_plain(woven, info, names):
+    """functions WITHOUT a contract entry whose bodies Verus rejects (unsupported construct): mark them external_body on
+    their own header line (no line shift).  Their callers are treated as tainted by check_property."""
+    if not names:
+        return woven
+    m = Model(woven, info)
+    lines = woven.split('\n')
+    for (ln, fid) in m.fns:
+        if fid in names and '@@ISOLATED' not in lines[ln - 1]:
+            lines[ln - 1] = re.sub(r'^(\s*)((?:pub(?:\([a-z]+\))? )?(?:const )?fn )', r'\1#[verifier::external_body] /*@@ISOLATED*/ \2', lines[ln - 1], count=1)
+    return '\n'.join(lines)
+
+
+def _collect_unit_once(unit, vacuity, isolate, isolate_plain=()):
     variants = []
     if unit['build'] == 'core':
         # path-split verification (contracts may declare `@split` cases for functions with large loop bodies):
@@ -429,6 +444,9 @@ def _collect_unit_once(unit, vacuity, isolate):
         ex, woven, info, path = build_wrappers(vacuity=vacuity, isolate=isolate, which='ring')
     else:
         ex, woven, info, path = build_wrappers(vacuity=vacuity, isolate=isolate)
+    if isolate_plain:
+        woven = patch_plain(woven, info, set(isolate_plain))
+        open(path, 'w').write(woven)
     model = Model(woven, info)
     model.unit = unit
     import concurrent.futures
@@ -437,6 +455,9 @@ def _collect_unit_once(unit, vacuity, isolate):
         fnid, case = fc
         tag = '__%s__%s' % (re.sub(r'\W+', '_', fnid), case)
         ex2, woven2, info2, path2 = build(vacuity=False, split=(fnid, case), tag=tag, isolate=isolate)
+        if isolate_plain:
+            woven2 = patch_plain(woven2, info2, set(isolate_plain))
+            open(path2, 'w').write(woven2)
         m2 = Model(woven2, info2)
         m2.unit = unit
         out2, diags2, hit2, wall2 = run_verus(path2, woven2, extra=unit['flags'] + _fn_verus_args(fnid) + ['--num-threads', '2'])
@@ -679,6 +700,16 @@ def check_property(pid, tier, res=None, vres=None, quiet=False):
     # a failure there may be a lost proof rather than a violation -> undecided unless confirmed by a counterexample
     lost_hints = [h for u in res['units'] for h in u['model'].info.get('lost_hints', [])]
     tainted = {h['fn'] for h in lost_hints}
+    # callers of a function that had to be left out of the run (unsupported construct, no contract): their failures are
+    # lost proofs, not violations
+    for u in res['units']:
+        for fid in u.get('isolated_plain', []):
+            short = fid.split('::')[-1]
+            m = u['model']
+            for k, (ln, caller) in enumerate(m.fns):
+                end = m.fns[k + 1][0] if k + 1 < len(m.fns) else len(m.lines) + 1
+                if caller != fid and re.search(r'\b%s\s*\(' % re.escape(short), '\n'.join(m.lines[ln:end - 1])):
+                    tainted.add(caller)
     tainted_failed = {k: v for k, v in failed.items() if k[0] in tainted}
     failed = {k: v for k, v in failed.items() if k[0] not in tainted}
     # functions that failed without any mapped diagnostic (should not happen) -> undecided
